@@ -20,7 +20,7 @@ reset                                                     -> ok
 namespace LL.Drv
 open Ak Ak.Proto LL
 
-def parseFuel : Nat := 2000000
+def parseFuel : Nat := 20000000
 
 def splitNonEmpty (s : String) (sep : String) : List String :=
   if s = "-" ∨ s = "" then [] else s.splitOn sep
